@@ -16,6 +16,6 @@ def ev(d):
         out = {"error": (r.stdout + r.stderr)[-600:]}
     json.dump(out, open(os.path.join(d, "result.json"), "w"), indent=1)
     return d, out
-with ThreadPoolExecutor(3) as ex:
+with ThreadPoolExecutor(2) as ex:
     for d, out in ex.map(ev, dirs):
         print(os.path.basename(d), "applies=%s demo_fail=%s demo_pass=%s suite=%s caught_by=%s" % (out.get("applies"), out.get("demo_fails_with_change"), out.get("demo_passes_without"), out.get("suite_passes"), out.get("caught_by")), {p: v.get("rc") for p, v in out.get("checks", {}).items()}, flush=True)
